@@ -1,6 +1,7 @@
 //! yv — conformance harness binding /verif/spec (TLA+) to the real yata crate.
 //! Direction A: `*-replay` commands execute TLC-generated behaviours / tables on the real API.
 //! Direction B: `*-record` commands drive the real API and log NDJSON traces for TLC to validate.
+mod action;
 mod tok;
 mod util;
 mod window;
@@ -21,6 +22,8 @@ fn dispatch(cmd: &str, rest: &[String]) {
 	match cmd {
 		"window-replay" => window::replay(rest),
 		"window-record" => window::record(rest),
+		"action-replay" => action::replay(rest),
+		"action-probe" => action::probe(rest),
 		"tok-replay" => tok::replay(rest),
 		"tok-record" => tok::record(rest),
 		_ => {
